@@ -3,8 +3,8 @@ import PwVerif.Model.Proto
 open PwVerif PwVerif.Storage PwVerif.Proto
 
 /-- the variants are run side by side on the same op stream; every op prints one line per
-variant (`I …` = inPlace/pinned, `A …` = atomicReplace = the tree as it is, `S …` = atomicReplace with the
-delete that always sweeps) -/
+variant (`I …` = inPlace/pinned, `A …` = atomicReplace with the delete that ignores leftovers (before `1e4658d`),
+`S …` = atomicReplace with the delete that sweeps leftovers = the tree as it is) -/
 structure St where
   wi : World
   wa : World
@@ -63,8 +63,8 @@ def obs (tag : String) (cfg : Cfg) (w : World) (op : Op) : World × String :=
 
 def both (s : St) (op : Op) : St × List String :=
   let (wi, li) := obs "I" Cfg.pinned s.wi op
-  let (wa, la) := obs "A" Cfg.current s.wa op
-  let (ws, ls) := obs "S" Cfg.swept s.ws op
+  let (wa, la) := obs "A" Cfg.unswept s.wa op
+  let (ws, ls) := obs "S" Cfg.current s.ws op
   (⟨wi, wa, ws⟩, [li, la, ls])
 
 def step (s : St) (ws : List String) : St × List String :=
